@@ -1,6 +1,7 @@
 # props/C20.py — enumerate and reverse visit every element once, in the right order, in place
 import itertools
 from lib.framework import Check
+from props.C16 import coqchk_extra
 
 KINDS = ("vec", "arr", "list", "map", "carr", "il", "fv")
 MAXN = 6
@@ -86,6 +87,9 @@ class C20(Check):
             mode = rng.choice("lcrm")
             n = rng.choice([7, 8, 16, 17, 33, rng.randint(6, 80)])
             yield "%s %s %s %s" % (ad, kind, mode, wl([rng.randint(-1000, 1000) for _ in range(n)])), "long"
+
+    def extra(self, ctx):
+        coqchk_extra(self, ctx, ["Nitro.Properties.Properties_C20"])
 
     def nontrivial(self, case, mobs, iobs):
         return case.split()[3] != "."
